@@ -179,6 +179,11 @@ class ProgGen:
 
     def cond_expr(self, scope, depth=1):
         r = self.rng.random()
+        if r > 0.9:
+            # a number used as a condition (true iff non-zero): integral values keep levels comparable
+            lv, t = self.lvalue(scope, lambda x: x in NUM, create=False)
+            if lv:
+                return self.rng.choice([lv, f'({lv} * 2)', f'ABS({lv})'])
         if r < 0.15 and 'strings' in self.f:
             return f'{self.str_expr(scope, depth)} {self.rng.choice(["=", "<>", "<", ">"])} {self.str_expr(scope, depth)}'
         a = self.num_expr(scope, depth)
@@ -319,13 +324,17 @@ class ProgGen:
                 lines = [f'SELECT CASE {self.num_expr(scope, 1)}']
                 for _ in range(self.rng.randint(1, 3)):
                     k = self.rng.random()
+                    lit = lambda: self.num_lit() if 'floats' in f else self.int_lit()  # noqa: E731
                     if k < 0.4:
-                        cl = ', '.join(self.int_lit() for _ in range(self.rng.randint(1, 2)))
+                        cl = ', '.join(lit() for _ in range(self.rng.randint(1, 2)))
                     elif k < 0.7:
                         a = self.rng.randint(-2, 5)
-                        cl = f'{a} TO {a + self.rng.randint(0, 4)}'
+                        lo = self.rng.choice([str(a), f'{a}.5', f'{a}&', f'{a}#']) if 'floats' in f else str(a)
+                        b = a + self.rng.randint(1, 4)
+                        hi = self.rng.choice([str(b), f'{b}.25', f'{b}!', str(b * 10000)]) if 'floats' in f else str(b)
+                        cl = f'{lo} TO {hi}'
                     else:
-                        cl = f'IS {self.rng.choice(["<", ">", ">=", "<=", "<>"])} {self.int_lit()}'
+                        cl = f'IS {self.rng.choice(["<", ">", ">=", "<=", "<>"])} {lit()}'
                     lines += [f'CASE {cl}'] + ind(self.block(scope, nb(), depth - 1))
             if self.rng.random() < 0.5:
                 lines += ['CASE ELSE'] + ind(self.block(scope, nb(), depth - 1))
